@@ -251,6 +251,9 @@ class LSMTree(Entity):
         # Immutable memtables awaiting flush (for reads during flush)
         self._immutable_memtables: list[Memtable] = []
 
+        # WAL sequence numbers appended but not yet applied to a memtable
+        self._wal_pending: set[int] = set()
+
         # SSTable levels: levels[0] is L0 (most recent)
         self._levels: list[list[SSTable]] = [[] for _ in range(max_levels)]
 
@@ -346,8 +349,11 @@ class LSMTree(Entity):
 
         # WAL append
         if self._wal is not None:
+            seq = self._wal._next_sequence
+            self._wal_pending.add(seq)
             yield from self._wal.append(key, value)
             self._total_wal_writes += 1
+            self._wal_pending.discard(seq)
 
         # Memtable put
         is_full = yield from self._memtable.put(key, value)
@@ -458,8 +464,11 @@ class LSMTree(Entity):
         self._logical_data.pop(key, None)
 
         if self._wal is not None:
+            seq = self._wal._next_sequence
+            self._wal_pending.add(seq)
             yield from self._wal.append(key, _TOMBSTONE)
             self._total_wal_writes += 1
+            self._wal_pending.discard(seq)
 
         is_full = yield from self._memtable.put(key, _TOMBSTONE)
         if is_full:
@@ -503,6 +512,15 @@ class LSMTree(Entity):
         if self._memtable.size == 0:
             return
 
+        # WAL entries that may be dropped once this SSTable is installed: only
+        # those already applied to the memtable being flushed (or an earlier
+        # one).  Entries appended during the write latency below, and entries
+        # still waiting for their WAL write/sync, live only in the WAL and the
+        # new memtable and must survive the truncation.
+        wal_truncate_to = 0
+        if self._wal is not None:
+            wal_truncate_to = min(self._wal_pending | {self._wal._next_sequence}) - 1
+
         # Move active memtable to immutable list
         old_memtable = self._memtable
         self._immutable_memtables.append(old_memtable)
@@ -530,9 +548,9 @@ class LSMTree(Entity):
         # Remove from immutable list
         self._immutable_memtables.remove(old_memtable)
 
-        # Truncate WAL
+        # Truncate WAL (bound captured before the write latency)
         if self._wal is not None:
-            self._wal.truncate(self._wal._next_sequence - 1)
+            self._wal.truncate(wal_truncate_to)
 
         logger.debug(
             "[%s] Flushed memtable to L0 SSTable(%d keys), L0 now has %d SSTables",
